@@ -150,6 +150,16 @@ func (r *RequestContext) Cookie(name string) string {
 }
 
 func (r *RequestContext) Body() any {
+	if len(r.reqRawBody) == 0 {
+		// envoy delivers the body in the raw_body attribute only if pack_as_bytes is set
+		r.reqRawBody = []byte(r.reqBody)
+	}
+
+	if len(r.reqRawBody) == 0 {
+		// as the HTTP based services do for requests without a body
+		return ""
+	}
+
 	if r.savedBody == nil {
 		decoder, err := contenttype.NewDecoder(r.Header("Content-Type"))
 		if err != nil {
